@@ -233,6 +233,7 @@ class _HelperOrder(Client):
     def __init__(self, prog, pid, handles, helper):
         self.P, self.pid, self.handles, self.helper = prog, pid, handles, helper
         self.pid_before_handle = False
+        self._as_inlined = False
 
     def should_inline(self, func, call, ctx):
         return func.name in ("open", "close")
@@ -261,8 +262,20 @@ class _HelperOrder(Client):
                     return (t,), (f_,)
                 if isinstance(op, (ast.Eq, ast.Is)):
                     return (f_,), (t,)
+        # a property of the object that is one `return <test over the object's fields>` (`closed`) reads as that test
+        if isinstance(test, ast.Attribute) and ctx.scope.is_self(test.value) and ctx.scope.cls is not None:
+            pf = self.P.resolve(ctx.scope.cls, test.attr)
+            if pf is not None and pf.is_property and not pf.is_abstract:
+                body = [st for st in pf.node.body if not (isinstance(st, ast.Expr) and isinstance(st.value, ast.Constant))]
+                if len(body) == 1 and isinstance(body[0], ast.Return) and body[0].value is not None and pf.self_name == ctx.func.self_name:
+                    saved = self._as_inlined
+                    self._as_inlined = True
+                    try:
+                        return self.refine(body[0].value, state, ctx)
+                    finally:
+                        self._as_inlined = saved
         # inside the inlined open(): `if self.file is None` follows what close() did
-        if ctx.func is not self.helper and isinstance(test, ast.Compare) and len(test.ops) == 1 and const_value(test.comparators[0], 0) is None:
+        if (ctx.func is not self.helper or self._as_inlined) and ctx.func is not self.helper and isinstance(test, ast.Compare) and len(test.ops) == 1 and const_value(test.comparators[0], 0) is None:
             d = dotted(test.left)
             if d and len(d) == 2 and d[1] in self.handles:
                 is_none = rel
